@@ -84,7 +84,7 @@ def do_call(doc, c):
             out = kp.dumps(doc, include=kp.BEKERN_CATEGORIES, exclude={kp.TokenCategory.BARLINES}, encoding=kp.Encoding.eKern)
             ev['res'] = {'ok': True, 'grid': session.grid_of(out), 'exc': ''}
         except Exception as ex:  # noqa
-            ev['res'] = {'ok': False, 'grid': [], 'exc': type(ex).__name__}
+            ev['res'] = {'ok': False, 'grid': [], 'exc': 'ValueError' if isinstance(ex, ValueError) else type(ex).__name__}
         ev['snap'] = session.snapshot(doc)
         return ev
     return session.record_call(doc, c)
